@@ -18,10 +18,10 @@ package ocsp
 //@   ensures[C02,C05] strict_needs_an_answer: called(OCSPRevocationChecker.filterHTTPOCSPServers#1) && !(called(OCSPRevocationChecker.parseOcspResponse#1) && res(OCSPRevocationChecker.parseOcspResponse#1, 1) == nil && res(OCSPRevocationChecker.parseOcspResponse#1, 0).SerialNumber != nil && big(res(OCSPRevocationChecker.parseOcspResponse#1, 0).SerialNumber) == big(clientCertificate.SerialNumber)) && c.ocspConfig.OCSPAIAStrict && len(res(OCSPRevocationChecker.filterHTTPOCSPServers#1)) > 0 ==> err != nil
 //@   ensures[C02] lenient_never_rejects_for_unavailability: called(OCSPRevocationChecker.filterHTTPOCSPServers#1) && !(called(OCSPRevocationChecker.parseOcspResponse#1) && res(OCSPRevocationChecker.parseOcspResponse#1, 1) == nil && res(OCSPRevocationChecker.parseOcspResponse#1, 0).SerialNumber != nil && big(res(OCSPRevocationChecker.parseOcspResponse#1, 0).SerialNumber) == big(clientCertificate.SerialNumber)) && !(c.ocspConfig.OCSPAIAStrict && len(res(OCSPRevocationChecker.filterHTTPOCSPServers#1)) > 0) ==> err == nil && !ret.Revoked
 //@   ensures[C05] answer_is_about_this_certificate: err == nil && ret.OcspResponse != nil && !(called(OCSPRevocationChecker.tryGetResponseFromCache#1) && res(OCSPRevocationChecker.tryGetResponseFromCache#1, 1) == nil) ==> ret.OcspResponse.SerialNumber != nil && big(ret.OcspResponse.SerialNumber) == big(clientCertificate.SerialNumber)
-//@   ensures[C14,C05] only_answers_are_cached: called(CacheTable.Add#1) ==> called(OCSPRevocationChecker.parseOcspResponse#1) && res(OCSPRevocationChecker.parseOcspResponse#1, 1) == nil && res(OCSPRevocationChecker.parseOcspResponse#1, 0).SerialNumber != nil && big(res(OCSPRevocationChecker.parseOcspResponse#1, 0).SerialNumber) == big(clientCertificate.SerialNumber) && arg(CacheTable.Add#1, 2) > 0
-//@   ensures[C02,C14] cached_verdict_is_the_answer: called(CacheTable.Add#1) ==> typeis(arg(CacheTable.Add#1, 3), core.RevocationStatus) && as(arg(CacheTable.Add#1, 3), core.RevocationStatus).Revoked == (res(OCSPRevocationChecker.parseOcspResponse#1, 0).Status == ocsp.Revoked) && as(arg(CacheTable.Add#1, 3), core.RevocationStatus).OcspResponse == res(OCSPRevocationChecker.parseOcspResponse#1, 0)
+//@   ensures[C14,C05] only_answers_are_cached: called(CacheTable.Add#any) ==> called(OCSPRevocationChecker.parseOcspResponse#1) && res(OCSPRevocationChecker.parseOcspResponse#1, 1) == nil && res(OCSPRevocationChecker.parseOcspResponse#1, 0).SerialNumber != nil && big(res(OCSPRevocationChecker.parseOcspResponse#1, 0).SerialNumber) == big(clientCertificate.SerialNumber) && arg(CacheTable.Add#any, 2) > 0
+//@   ensures[C02,C14] cached_verdict_is_the_answer: called(CacheTable.Add#any) ==> typeis(arg(CacheTable.Add#any, 3), core.RevocationStatus) && as(arg(CacheTable.Add#any, 3), core.RevocationStatus).Revoked == (res(OCSPRevocationChecker.parseOcspResponse#1, 0).Status == ocsp.Revoked) && as(arg(CacheTable.Add#any, 3), core.RevocationStatus).OcspResponse == res(OCSPRevocationChecker.parseOcspResponse#1, 0)
 //@   ensures[C14,C05] cache_key_names_issuer_and_serial: called(OCSPRevocationChecker.tryGetResponseFromCache#1) ==> arg(OCSPRevocationChecker.tryGetResponseFromCache#1, 1) == old(cacheKeyOf(clientCertificate))
-//@   ensures[C14,C05] lookup_and_store_use_the_same_key: called(CacheTable.Add#1) ==> typeis(arg(CacheTable.Add#1, 1), string) && as(arg(CacheTable.Add#1, 1), string) == arg(OCSPRevocationChecker.tryGetResponseFromCache#1, 1)
+//@   ensures[C14,C05] lookup_and_store_use_the_same_key: called(CacheTable.Add#any) ==> typeis(arg(CacheTable.Add#any, 1), string) && as(arg(CacheTable.Add#any, 1), string) == arg(OCSPRevocationChecker.tryGetResponseFromCache#1, 1)
 //@   loop 1 invariant ocspOK(c)
 //@   loop 2 invariant ocspOK(c)
 //@   loop 1 iter_ensures[C02] failed_responder_does_not_end_the_search: !(called(OCSPRevocationChecker.parseOcspResponse#1) && res(OCSPRevocationChecker.parseOcspResponse#1, 1) == nil && res(OCSPRevocationChecker.parseOcspResponse#1, 0).SerialNumber != nil && big(res(OCSPRevocationChecker.parseOcspResponse#1, 0).SerialNumber) == big(clientCertificate.SerialNumber))
